@@ -196,7 +196,7 @@ class Function:
 # canonical keys
 
 
-def key(n, names=False):
+def key(n, names=False, subst=None):
     """Canonical s-expression of an expression; semantic (resolved decls), position independent.
     names=True: locals/params by name (for cross-function comparison), else by declaration id."""
     if n is None:
@@ -204,10 +204,14 @@ def key(n, names=False):
     k = n.k
     d = n.d
     if k == "Cast":
-        return key(n.c[-1], names) if n.c else "?"
+        return key(n.c[-1], names, subst) if n.c else "?"
     if k == "DeclRefExpr":
         dk = d.get("dk")
         if dk in ("local", "param", "staticlocal", "binding"):
+            if subst is not None and d.get("d") in subst and subst[d.get("d")] is not None:
+                return key(subst[d.get("d")], names, subst)
+            if names == "type":
+                return ("$" + d.get("n")) if dk == "param" else "$<%s>" % (d.get("t") or "?").replace("const ", "")
             return (d.get("n") if names else "v%d" % d.get("d")) or "?"
         if dk == "enumconst":
             return d.get("qn")
@@ -218,7 +222,7 @@ def key(n, names=False):
         base = n.c[0] if n.c else None
         if base is not None and base.k == "CXXThisExpr":
             return "this." + d.get("n")
-        return key(base, names) + "." + d.get("n")
+        return key(base, names, subst) + "." + d.get("n")
     if k == "CXXThisExpr":
         return "this"
     if k in ("IntegerLiteral", "FloatingLiteral", "CXXBoolLiteralExpr", "CharacterLiteral"):
@@ -231,48 +235,48 @@ def key(n, names=False):
     if k == "StringLiteral":
         return '"%s"' % d.get("v", "")
     if k in ("BinaryOperator", "CompoundAssignOperator"):
-        return "(%s %s %s)" % (d.get("op"), key(n.c[0], names), key(n.c[1], names))
+        return "(%s %s %s)" % (d.get("op"), key(n.c[0], names, subst), key(n.c[1], names, subst))
     if k == "UnaryOperator":
-        return "(%s%s %s)" % (d.get("op"), "post" if d.get("postfix") else "", key(n.c[0], names))
+        return "(%s%s %s)" % (d.get("op"), "post" if d.get("postfix") else "", key(n.c[0], names, subst))
     if k == "ConditionalOperator":
-        return "(?: %s %s %s)" % tuple(key(c, names) for c in n.c[:3])
+        return "(?: %s %s %s)" % tuple(key(c, names, subst) for c in n.c[:3])
     if k == "ArraySubscriptExpr":
-        return "%s[%s]" % (key(n.c[0], names), key(n.c[1], names))
+        return "%s[%s]" % (key(n.c[0], names, subst), key(n.c[1], names, subst))
     if k == "CXXOperatorCallExpr":
         op = d.get("op")
         if op == "[]" and len(n.c) == 2:
-            return "%s[%s]" % (key(n.c[0], names), key(n.c[1], names))
+            return "%s[%s]" % (key(n.c[0], names, subst), key(n.c[1], names, subst))
         if op in ("*", "->") and len(n.c) == 1:
-            return "*" + key(n.c[0], names)
-        return "(%s %s)" % (op, " ".join(key(c, names) for c in n.c))
+            return "*" + key(n.c[0], names, subst)
+        return "(%s %s)" % (op, " ".join(key(c, names, subst) for c in n.c))
     if k == "CXXMemberCallExpr":
         obj = n.c[0] if n.c else None
         fn = (d.get("fn") or {}).get("qn", "?").split("::")[-1]
-        o = key(obj, names)
-        return "%s.%s(%s)" % (o, fn, ",".join(key(c, names) for c in n.c[1:]))
+        o = key(obj, names, subst)
+        return "%s.%s(%s)" % (o, fn, ",".join(key(c, names, subst) for c in n.c[1:]))
     if k == "CallExpr":
         fn = (d.get("fn") or {}).get("qn")
         if fn is None:
-            return "call(%s)" % ",".join(key(c, names) for c in n.c)
-        return "%s(%s)" % (fn, ",".join(key(c, names) for c in n.c))
+            return "call(%s)" % ",".join(key(c, names, subst) for c in n.c)
+        return "%s(%s)" % (fn, ",".join(key(c, names, subst) for c in n.c))
     if k in ("CXXConstructExpr", "CXXTemporaryObjectExpr"):
         if len(n.c) == 1 and d.get("elidable"):
-            return key(n.c[0], names)
+            return key(n.c[0], names, subst)
         fn = (d.get("fn") or {}).get("qn", "?")
         # copy/move construction is value preserving
         if len(n.c) == 1 and fn.split("::")[-1] == fn.split("::")[-2] if fn.count("::") else False:
             sig = (d.get("fn") or {}).get("sig", "")
             cls = fn.split("::")[-1]
             if cls in sig and "," not in sig:
-                return key(n.c[0], names)
-        return "%s(%s)" % (fn, ",".join(key(c, names) for c in n.c))
+                return key(n.c[0], names, subst)
+        return "%s(%s)" % (fn, ",".join(key(c, names, subst) for c in n.c))
     if k == "CXXDependentScopeMemberExpr":
-        return (key(n.c[0], names) if n.c else "this") + "." + (d.get("n") or "?")
+        return (key(n.c[0], names, subst) if n.c else "this") + "." + (d.get("n") or "?")
     if k in ("UnresolvedLookupExpr", "DependentScopeDeclRefExpr", "UnresolvedMemberExpr"):
         return "~" + (d.get("n") or "?")
     if k == "VarDecl":
         return "decl(%s)" % (d.get("n") if names else "v%d" % d.get("d"))
-    return "%s(%s)" % (k, ",".join(key(c, names) for c in n.c))
+    return "%s(%s)" % (k, ",".join(key(c, names, subst) for c in n.c))
 
 
 def roots(n):
